@@ -4,6 +4,7 @@ import Usid.Driver.Crash
 import Usid.Driver.Groups
 import Usid.Driver.Attrs
 import Usid.Driver.Dup
+import Usid.Driver.MainCheck
 /-! Line-protocol driver over the hand-written models: one JSON request per line on stdin,
     one JSON response per line on stdout. -/
 namespace Usid.Driver
@@ -16,7 +17,8 @@ def handlers : List (String × (Json → R Json)) := [
   ("crash.wf", hCrashWf), ("crash.trace", hCrashTrace), ("crash.resume", hCrashResume),
   ("grp.run", hGrpRun),
   ("attrs.match", hAttrsMatch),
-  ("dup.decide", hDupDecide)
+  ("dup.decide", hDupDecide),
+  ("main.check", hMainCheck)
 ]
 
 def respond (tbl : List (String × (Json → R Json))) (line : String) : String :=
